@@ -6,7 +6,7 @@
 //! where the interposer additionally validates every range handed to the kernel, and (b) with
 //! two different allocation fill bytes (a byte the transport never wrote cannot match the
 //! expected payload under both fills); debug assertions / core ub_checks are on in all builds.
-use super::{c01, c12, c13, c15, emit_part, run_variant_part, sweep, Part};
+use super::{c01, c04, c12, c13, c15, emit_part, run_variant_part, sweep, Part};
 use crate::common::{pattern, Report, Tier};
 use crate::interpose::Cfg;
 use ipc_channel::ipc::{self, IpcSharedMemory};
@@ -26,6 +26,7 @@ pub struct ShmCase {
 
 #[derive(Clone, Debug, Serialize, Deserialize)]
 pub enum Shape {
+    C04(c04::Case),
     C01(c01::Case),
     C12(c12::Case),
     C13(c13::Case),
@@ -98,6 +99,7 @@ fn shm_body(c: &ShmCase) -> Result<(), String> {
 fn body(c: &Case) -> Result<(), String> {
     crate::FILL.store(c.fill, Ordering::SeqCst);
     match &c.shape {
+        Shape::C04(x) => c04::body(x),
         Shape::C01(x) => c01::run_case(x),
         Shape::C12(x) => c12::body(x),
         Shape::C13(x) => c13::body(x),
@@ -108,6 +110,7 @@ fn body(c: &Case) -> Result<(), String> {
 
 fn cfg_of(c: &Case) -> Cfg {
     match &c.shape {
+        Shape::C04(x) => c04::cfg_of(x),
         Shape::C01(x) => c01::cfg_of(x),
         Shape::C12(x) => c12::cfg_of(x),
         Shape::C13(x) => c13::cfg_of(x),
@@ -130,6 +133,17 @@ fn shapes(tier: Tier) -> Result<Vec<Shape>, String> {
                 }
                 v.push(Shape::C01(c01::Case::BytesThreaded { buf: b.clone(), len }));
             }
+        }
+    }
+    // C04: mixed attachments at every position (sequences of length <= 2 quick / 3 thorough, and chains)
+    for c in c04::cases(Tier::Quick) {
+        let keep = match &c {
+            c04::Case::Seq(s) => s.kinds.len() <= if quick { 2 } else { 3 },
+            c04::Case::Count(_) => false,
+            c04::Case::Chain(ch) => ch.hops.len() <= if quick { 1 } else { 3 },
+        };
+        if keep {
+            v.push(Shape::C04(c));
         }
     }
     // C13 retries
@@ -240,7 +254,7 @@ pub fn run(tier: Tier, part_only: bool) -> i32 {
         Ok(p) => p.merge_into(&mut rep),
         Err(e) => rep.machinery(e),
     }
-    rep.set("rule", json!("cases = message shapes of C01 (+-16 windows around k x packet capacity, fake and kernel-enforced buffers), C13 (ENOBUFS patterns), C15 (0..=66 attachments x mixtures x data parts), C12 (every crash index, receiver side) and shared-memory regions (lengths 0,1,2,P-1,P,P+1,2P-1,2P,2P+1,100000 x platform/ipc API x from_bytes/from_byte x clones x sent or not), each executed on the plain build under two allocation fill bytes and on the AddressSanitizer build with kernel-boundary range checks; a case passes when its own payload/attachment oracle passes and no sanitizer report, assertion, ub_check or signal ends the process"));
+    rep.set("rule", json!("cases = message shapes of C04 (every item-kind sequence up to length 2 (3), flat and nested, small and 3-packet; transfer chains), C01 (+-16 windows around k x packet capacity, fake and kernel-enforced buffers), C13 (ENOBUFS patterns), C15 (0..=66 attachments x mixtures x data parts), C12 (every crash index, receiver side) and shared-memory regions (lengths 0,1,2,P-1,P,P+1,2P-1,2P,2P+1,100000 x platform/ipc API x from_bytes/from_byte x clones x sent or not), each executed on the plain build under two allocation fill bytes and on the AddressSanitizer build with kernel-boundary range checks; a case passes when its own payload/attachment oracle passes and no sanitizer report, assertion, ub_check or signal ends the process"));
     rep.set("exhaustive", json!(true));
     rep.assume("AddressSanitizer (nightly -Zsanitizer=address) instruments the harness and the crate under test; the libc entry points the harness defines re-implement ASan's range checks at exactly the ranges the kernel may touch");
     rep.assume("valgrind is not used for the verdict (it flags the uninitialised padding of the malloc'ed control buffer, which is benign)");
